@@ -244,6 +244,88 @@ func exBusy(a kv) string {
 	return fmt.Sprintf("run=%s marker=%s", run, exB01(exCountMarker(exExists(marker))))
 }
 
+// exBusyHold: the (root-owned, safe) executable is held open for writing for LONGER than the call's timeout (a hung
+// package manager, an editor, a `cp` onto the script): every start attempt fails with ETXTBSY. The call has to come back
+// with an error within its timeout + margin, and the command has to work again once the writer is gone.
+func exBusyHold(a kv) string {
+	dir := execCaseDir()
+	defer os.RemoveAll(dir)
+	script, marker := exMarkerScript(dir)
+	exSetStat(script, 0, 0, 0o755)
+	timeout := time.Duration(a.int("timeout_ms", 300)) * time.Millisecond
+	w, err := os.OpenFile(script, os.O_WRONLY, 0)
+	if err != nil {
+		panic(err)
+	}
+	closed := make(chan struct{})
+	go func() {
+		time.Sleep(time.Duration(a.int("hold_ms", 1500)) * time.Millisecond)
+		_ = w.Close()
+		close(closed)
+	}()
+	done := make(chan string, 1)
+	t0 := time.Now()
+	go func() { done <- exRunSafe(script, nil, timeout) }()
+	var run string
+	late := false
+	select {
+	case run = <-done:
+		late = time.Since(t0) > timeout+600*time.Millisecond
+	case <-time.After(timeout + 5*time.Second):
+		run, late = "blocked", true
+	}
+	<-closed
+	if run == "blocked" {
+		select {
+		case <-done:
+		case <-time.After(3 * time.Second):
+		}
+	}
+	time.Sleep(20 * time.Millisecond)
+	_ = os.Remove(marker)
+	after := exRunSafe(script, nil, 2*time.Second)
+	return fmt.Sprintf("run=%s late=%s after=%s", run, exB01(late), after)
+}
+
+// exQueue: two calls on the SAME executable overlap (a sensor command that is still running when the next poll, or
+// another user of the same script, comes); while both are under way the file is replaced (rename) by one a non-root user
+// owns. Each call may only ever run a file that was root-controlled when THAT call checked it directly before starting it:
+// the replacement must never be executed.
+func exQueue(a kv) string {
+	dir := execCaseDir()
+	defer os.RemoveAll(dir)
+	script := filepath.Join(dir, "cmd")
+	marker := filepath.Join(dir, "marker")
+	slow := a.int("slow_ms", 400)
+	body := fmt.Sprintf("#!/bin/sh\nsleep %d.%03d\necho 7\n", slow/1000, slow%1000)
+	if err := os.WriteFile(script, []byte(body), 0o700); err != nil {
+		panic(err)
+	}
+	exSetStat(script, 0, 0, 0o755)
+	evil := filepath.Join(dir, "cmd.new")
+	if err := os.WriteFile(evil, []byte("#!/bin/sh\necho x >> "+marker+"\necho 9\n"), 0o700); err != nil {
+		panic(err)
+	}
+	exSetStat(evil, 1000, 1000, 0o755)
+	da, db := make(chan string, 1), make(chan string, 1)
+	go func() { da <- exRunSafe(script, nil, 3*time.Second) }()
+	time.Sleep(time.Duration(a.int("gap_ms", 60)) * time.Millisecond)
+	go func() { db <- exRunSafe(script, nil, 3*time.Second) }()
+	time.Sleep(time.Duration(a.int("swap_ms", 60)) * time.Millisecond)
+	_ = os.Rename(evil, script)
+	get := func(c chan string) string {
+		select {
+		case r := <-c:
+			return r
+		case <-time.After(10 * time.Second):
+			return "blocked"
+		}
+	}
+	ra, rb := get(da), get(db)
+	time.Sleep(20 * time.Millisecond)
+	return fmt.Sprintf("a=%s b=%s marker=%s", ra, rb, exB01(exCountMarker(exExists(marker))))
+}
+
 // exRel: the configured executable is a RELATIVE path with a directory component. The file the permission check looks at
 // and the file that is started must be the same one: next to the checked (root-owned) script sits a world-writable script
 // of another owner at the place the relative path denotes when it is resolved against another directory.
@@ -674,6 +756,10 @@ func init() {
 			return exStatRace(a)
 		case "ex.run":
 			return exRun(a)
+		case "ex.busyhold":
+			return exBusyHold(a)
+		case "ex.queue":
+			return exQueue(a)
 		case "ex.busy":
 			return exBusy(a)
 		case "ex.rel":
